@@ -7,6 +7,7 @@ import (
 	"bytes"
 	"context"
 	"fmt"
+	"github.com/ipfs/go-unixfsnode/data"
 	"github.com/ipfs/go-unixfsnode/file"
 	"github.com/ipfs/go-unixfsnode/hamt"
 	"github.com/ipld/go-ipld-prime"
@@ -159,7 +160,7 @@ const c17Rule = "case = shared reified node (sharded directory with cold cache /
 func TestC17_P_ConcurrentReads(t *testing.T) {
 	ev := newEvid(t, c17Rule)
 	rapid.Check(t, func(t *rapid.T) {
-		kind := rapid.SampledFrom([]string{"hamt-cold", "hamt-cold", "hamt-warm", "file", "file-oldstyle", "hamt-cold-faulty", "file-wide", "plaindir-wide", "hamt-cold-flaky", "file-oldstyle-measured", "file-slowroot", "linkmap-wide"}).Draw(t, "kind")
+		kind := rapid.SampledFrom([]string{"hamt-cold", "hamt-cold", "hamt-warm", "file", "file-oldstyle", "hamt-cold-faulty", "file-wide", "plaindir-wide", "hamt-cold-flaky", "file-oldstyle-measured", "file-slowroot", "linkmap-wide", "hamt-cold-damaged"}).Draw(t, "kind")
 		st := NewStore()
 		st.Yield = rapid.Bool().Draw(t, "yieldingStore") // every load gives up the processor, as a store blocking on I/O does
 		var root cid.Cid
@@ -241,6 +242,13 @@ func TestC17_P_ConcurrentReads(t *testing.T) {
 			}
 			content = data
 			st.Yield = true
+			if rapid.IntRange(0, 2).Draw(t, "measuredWithMissingBlock") == 0 {
+				// ... and one block below the root cannot be loaded: everybody's measuring fails, as it does alone
+				if tr, err := st.FileTree(root, 0); err == nil {
+					all := tr.All()
+					st.Missing = map[cid.Cid]bool{all[1+rapid.IntRange(0, len(all)-2).Draw(t, "missingBlock")].Cid: true}
+				}
+			}
 		} else if kind == "file" || kind == "file-oldstyle" {
 			var fc *fileCase
 			if kind == "file" {
@@ -269,6 +277,19 @@ func TestC17_P_ConcurrentReads(t *testing.T) {
 				t.Fatalf("harness: %v", err)
 			}
 			tree, _ = st.ShardTree(root)
+			if kind == "hamt-cold-damaged" {
+				// a damaged directory on a trusted store: the block behind one child-shard link is a valid block of another
+				// kind (a plain directory). Concurrent users get the errors (and results) they get alone
+				if shards := tree.ShardsPreOrder(); len(shards) > 0 {
+					other, _, err := buildDir(st, []entrySpec{entryFor("x", 0), entryFor("y", 0)})
+					if err != nil {
+						t.Fatalf("harness: %v", err)
+					}
+					raw, _ := st.Get(other)
+					st.Put(shards[rapid.IntRange(0, len(shards)-1).Draw(t, "damagedShard")], raw)
+					st.Trusted = true
+				}
+			}
 			if kind == "hamt-cold-faulty" {
 				// one child shard cannot be loaded: concurrent operations must fail (or not) exactly as they do alone, and return
 				if shards := tree.ShardsPreOrder(); len(shards) > 0 {
@@ -352,7 +373,7 @@ func TestC17_P_ConcurrentReads(t *testing.T) {
 		overReified := (kind == "file" || kind == "file-wide") && rapid.IntRange(0, 2).Draw(t, "fileOverReifiedFile") == 0
 		// files are also shared as the preloading reifier returns them (every block fetched up front)
 		reifier := "unixfs"
-		if strings.HasPrefix(kind, "file") && kind != "file-slowroot" && rapid.IntRange(0, 2).Draw(t, "preloadedFile") == 0 {
+		if strings.HasPrefix(kind, "file") && kind != "file-slowroot" && len(st.Missing) == 0 && rapid.IntRange(0, 2).Draw(t, "preloadedFile") == 0 {
 			reifier = "unixfs-preload"
 		}
 		fresh := func() datamodel.Node {
@@ -932,6 +953,106 @@ func TestC17_R_ManyPositionedReadsOnAWideNode(t *testing.T) {
 	for g, e := range errs {
 		if e != "" {
 			t.Fatalf("C17: %d goroutines making %d positioned reads each on one shared node of 600 links: goroutine %d: %s", G, reads, g, e)
+		}
+	}
+}
+
+// The first UnixFS messages of a process handled by many goroutines at once: permissions, encodings and decodings are what
+// they are when the process has been running for a while.
+func TestC17_R_ConcurrentFirstCodecCallsOfAProcess(t *testing.T) {
+	const G = 48
+	errs := make([]string, G)
+	var wg sync.WaitGroup
+	var ready, start atomic.Int32
+	wires := [][]byte{{0x08, 0x02}, {0x08, 0x01}, {0x08, 0x05, 0x28, 0x22, 0x30, 0x08}, {0x08, 0x02, 0x38, 0x00}, {0x08, 0x02, 0x38, 0xa4, 0x03}, {0x08, 0x04, 0x12, 0x01, 'x'}}
+	wantPerm := []int{0o644, 0o755, 0o755, 0, 0o644, 0}
+	for g := 0; g < G; g++ {
+		wg.Add(1)
+		go func(g int) {
+			defer wg.Done()
+			ready.Add(1)
+			for start.Load() == 0 {
+			}
+			p, _ := safe(func() {
+				for i := range wires {
+					k := (g + i) % len(wires)
+					n, err := data.DecodeUnixFSData(wires[k])
+					if err != nil {
+						errs[g] = fmt.Sprintf("decode %x: %v", wires[k], err)
+						return
+					}
+					if p := n.Permissions(); p != wantPerm[k] {
+						errs[g] = fmt.Sprintf("message %x: Permissions() = %o, want %o", wires[k], p, wantPerm[k])
+						return
+					}
+					enc := data.EncodeUnixFSData(n)
+					n2, err := data.DecodeUnixFSData(enc)
+					if err != nil || n2.Permissions() != wantPerm[k] {
+						errs[g] = fmt.Sprintf("message %x re-encoded as %x: permissions %o after the round trip (err %v), want %o", wires[k], enc, n2.Permissions(), err, wantPerm[k])
+						return
+					}
+				}
+			})
+			if p != nil {
+				errs[g] = fmt.Sprintf("panic: %v", p)
+			}
+		}(g)
+	}
+	for ready.Load() < int32(min(G, runtime.GOMAXPROCS(0))) {
+		runtime.Gosched()
+	}
+	start.Store(1)
+	c17Wait(&wg, "first codec calls of the process")
+	for g, e := range errs {
+		if e != "" {
+			t.Fatalf("C17 / C09: %d goroutines handling the first UnixFS messages of the process: goroutine %d: %s", G, g, e)
+		}
+	}
+}
+
+// A plain directory block with more than 2^16 links (hand-assembled), freshly reified and asked by eight goroutines at
+// once for entries all over it.
+func TestC17_R_ConcurrentFirstLookupsOnAHugePlainDirectory(t *testing.T) {
+	const n = 70000
+	st := NewStore()
+	sub, names, want := wideDir(st, n, nil)
+	for trial := 0; trial < 3; trial++ {
+		rn, err := loadReified(st.LinkSystem(), sub, "unixfs")
+		if err != nil {
+			t.Fatal(err)
+		}
+		const G = 8
+		errs := make([]string, G)
+		var wg sync.WaitGroup
+		start := make(chan struct{})
+		for g := 0; g < G; g++ {
+			wg.Add(1)
+			go func(g int) {
+				defer wg.Done()
+				<-start
+				p, _ := safe(func() {
+					for i := g * 7; i < n; i += n/40 + g {
+						v, err := rn.LookupByString(names[i])
+						if c, e := linkOf(v); err != nil || e != nil || c != want[names[i]] {
+							errs[g] = fmt.Sprintf("lookup of entry #%d %q: %v %v", i, names[i], v, err)
+							return
+						}
+					}
+					if _, err := rn.LookupByString("no-such-entry"); !isNoSuchField(err) {
+						errs[g] = fmt.Sprintf("lookup of a non-member: %v", err)
+					}
+				})
+				if p != nil {
+					errs[g] = fmt.Sprintf("panic: %v", p)
+				}
+			}(g)
+		}
+		close(start)
+		c17Wait(&wg, "first lookups on a huge plain directory")
+		for g, e := range errs {
+			if e != "" {
+				t.Fatalf("C17: %d goroutines making their first lookups on one fresh plain directory of %d links (trial %d): goroutine %d: %s", G, n, trial, g, e)
+			}
 		}
 	}
 }
